@@ -86,6 +86,10 @@ func main() {
 		sharedStress(*seed, *workers, *iters)
 		return
 	}
+	if *mode == "firstuse" {
+		firstUse(*workers)
+		return
+	}
 
 	fmts := []formats.Format{formats.SPDX23JSON, formats.CDX14JSON, formats.CDX15JSON}
 	const nDocs = 6
@@ -222,7 +226,6 @@ func main() {
 	fmt.Println(string(out))
 }
 
-
 // sharedStress: many goroutines run the read-only and value-returning operations on ONE shared
 // pair of node lists / document; results are compared with the sequential ones where they are
 // deterministic. Any write to the shared operands is a race the detector reports.
@@ -342,6 +345,60 @@ func sharedStress(seed int64, workers, iters int) {
 			}
 		}(w)
 	}
+	wg.Wait()
+	out, _ := json.Marshal(map[string]any{"problems": problems, "calls": calls})
+	fmt.Println(string(out))
+}
+
+
+// firstUse: the very first use of the reader and writer packages in this process, made by many
+// goroutines released together. Every call must return what it returns in a sequential run: a
+// registered driver for every built-in format.
+func firstUse(workers int) {
+	wfmts := []formats.Format{formats.SPDX23JSON, formats.CDX12JSON, formats.CDX13JSON, formats.CDX14JSON, formats.CDX15JSON}
+	rfmts := []formats.Format{formats.SPDX23JSON, formats.CDX13JSON, formats.CDX14JSON, formats.CDX15JSON}
+	start := make(chan struct{})
+	var wg sync.WaitGroup
+	for w := 0; w < workers; w++ {
+		wg.Add(1)
+		go func(w int) {
+			defer wg.Done()
+			defer func() {
+				if r := recover(); r != nil {
+					report("panic in a concurrent first use", fmt.Sprint(r))
+				}
+			}()
+			<-start
+			switch w % 4 {
+			case 0:
+				f := wfmts[w%len(wfmts)]
+				if _, err := writer.GetFormatSerializer(f); err != nil {
+					report("first concurrent use: no serializer for a built-in format", string(f)+": "+err.Error())
+				}
+				count("GetFormatSerializer")
+			case 1:
+				f := rfmts[w%len(rfmts)]
+				if _, err := reader.GetFormatUnserializer(f); err != nil {
+					report("first concurrent use: no unserializer for a built-in format", string(f)+": "+err.Error())
+				}
+				count("GetFormatUnserializer")
+			case 2:
+				var buf bytes.Buffer
+				f := wfmts[w%len(wfmts)]
+				if err := writer.New(writer.WithFormat(f)).WriteStream(mkDoc(w%3), nopCloser{&buf}); err != nil {
+					report("first concurrent use: writing failed", string(f)+": "+err.Error())
+				}
+				count("write")
+			default:
+				d := `{"bomFormat":"CycloneDX","specVersion":"1.5","version":1,"components":[]}`
+				if _, err := reader.New().ParseStream(bytes.NewReader([]byte(d))); err != nil {
+					report("first concurrent use: parsing failed", err.Error())
+				}
+				count("parse")
+			}
+		}(w)
+	}
+	close(start)
 	wg.Wait()
 	out, _ := json.Marshal(map[string]any{"problems": problems, "calls": calls})
 	fmt.Println(string(out))
